@@ -25,6 +25,9 @@ def regkey(desc):
     return ("s", desc[1]) if desc[0] == "s" else tuple(desc)
 
 
+MAXEV = 40000
+
+
 def preprocess(tf, out):
     """rewrite one harness trace file into TraceSync input; locations are the
     individual bytes that more than one thread touches and somebody writes.
@@ -39,7 +42,10 @@ def preprocess(tf, out):
             cur = {"id": e["id"], "ev": []}
             execs.append(cur)
         elif cur is not None and e["e"] in ("Sy", "Acc", "End"):
-            cur["ev"].append(e)
+            # a runaway execution is analysed up to MAXEV events: the happens-before relation of a
+            # prefix is the restriction of the whole one, so a race found in the prefix is a race
+            if len(cur["ev"]) < MAXEV or e["e"] == "End":
+                cur["ev"].append(e)
     names = {}
     with open(out, "w") as f:
         for ex in execs:
